@@ -119,6 +119,17 @@ theorem unread_body_with_linger_waits :
     s.close = false ∧ s.tClosing = false ∧ s.spc = .linger 10240 ∧ s.lingerTimer.isSome = true := by
   decide +kernel
 
+/-- **Keep-alive expiry racing the next request** (same loop iteration: the timer callback is ready but has not run when
+`data_received` delivers the request): the waiter is already resolved, `_process_keepalive` must not close — the request
+is answered and the connection stays open. (`conn_inv` / `queue_bounded` already cover every such interleaving, since
+`fire` and `data` are independent labels; this is the concrete instance, checked by the kernel.) -/
+theorem keepalive_expiry_vs_next_request :
+    let s := run (init { keepaliveMs := 1500 } [] [{ msgs := [{}] }, { msgs := [{}] }])
+      [.data 28, .tick, .fire 200000, .data 28, .tick, .tick]
+    s.now = 1500 ∧ s.tClosing = false ∧ s.forceClose = false ∧
+      s.wire.reverse = [.hdr 0 200 false, .eof 0, .hdr 1 200 false, .eof 1] ∧ s.waiter = .pending := by
+  decide +kernel
+
 /-! ## counterexamples: deviations of the unchanged code, reproduced on the model -/
 
 /-- two plain pipelined GET requests in one read -/
